@@ -991,6 +991,14 @@ pub fn apply(c: &mut Chain, tx: &Value) -> Outcome {
             c.mint_coins("reward", tx["d"].as_str().unwrap(), tx["a"].as_u64().unwrap() as u128);
             env_ok(true)
         }
+        "fund" => {
+            let to = tx["to"].as_str().unwrap();
+            let ok = ["hub", "reward", "dispatcher", "keeper", "swap"].contains(&to) || to.starts_with("usr");
+            if ok {
+                c.mint_coins(to, tx["d"].as_str().unwrap(), tx["a"].as_u64().unwrap() as u128);
+            }
+            env_ok(ok)
+        }
         "instantiate_token" => {
             let addr = tx["c"].as_str().unwrap();
             let init: Vec<cw20::Cw20Coin> = tx["init"].as_array().map(|a| a.iter().map(|e| cw20::Cw20Coin { address: e["a"].as_str().unwrap().to_string(), amount: Uint128::new(e["x"].as_u64().unwrap() as u128) }).collect()).unwrap_or_default();
